@@ -16,6 +16,7 @@
 //   and up to three lines "X <id> <t> <k> <c> <index> <ref %a> <val %a>" for differing entries,
 //   "V <id> <n> <n hex doubles>" once per case for small mds / mdsl / cli results (row major),
 //   then "E <id>".
+#include <cctype>
 #include <cmath>
 #include <cstdint>
 #include <cstdio>
@@ -103,6 +104,36 @@ static uint64_t fnv(const double* p, size_t n)
 
 typedef std::vector<int> Indices;
 
+// a progress line of an iterative method = an info message with at least two numbers: the first is the iteration,
+// the last the error ("Iteration 50: error is 67.1" today; robust to a rewording of the message)
+static bool parse_progress(const std::string& msg, long& iteration, double& value)
+{
+    std::vector<double> nums;
+    const char* s = msg.c_str();
+    size_t n = msg.size();
+    for (size_t i = 0; i < n;)
+    {
+        bool start = (isdigit((unsigned char)s[i]) || ((s[i] == '-' || s[i] == '.') && i + 1 < n && isdigit((unsigned char)s[i + 1]))) &&
+                     (i == 0 || !(isalnum((unsigned char)s[i - 1]) || s[i - 1] == '_' || s[i - 1] == '.'));
+        if (start)
+        {
+            char* e = nullptr;
+            double v = strtod(s + i, &e);
+            if (e && e > s + i)
+            {
+                nums.push_back(v);
+                i = (size_t)(e - s);
+                continue;
+            }
+        }
+        i++;
+    }
+    if (nums.size() < 2) return false;
+    iteration = (long)nums.front();
+    value = nums.back();
+    return true;
+}
+
 // ends TSNE::run (its iteration count is a local constant) at the first progress line with iteration >= stop_at
 struct stop_request
 {
@@ -115,10 +146,10 @@ struct StopLogger : public LoggerImplementation
     virtual void message_info(const std::string& msg)
     {
         long it = 0;
-        char buf[64];
-        if (msg.rfind("Iteration ", 0) == 0 && sscanf(msg.c_str(), "Iteration %ld: error is %63s", &it, buf) == 2)
+        double v = 0;
+        if (parse_progress(msg, it, v))
         {
-            last_error = strtod(buf, nullptr);
+            last_error = v;
             if (stop_at >= 0 && it >= stop_at) throw stop_request{it};
         }
     }
